@@ -175,13 +175,34 @@ def rule_grad_collect(model: Model):
                   "collects c.grad for every core of every tensor in order" if ok else "grad_list no longer collects c.grad of every core of every listed tensor"))
     f = model.func("grad.watch")
     p0 = f.params()[0]
-    calls = [n for n in ast.walk(f.node) if isinstance(n, ast.Call) and isinstance(n.func, ast.Attribute) and n.func.attr == "requires_grad_"
-             and isinstance(n.func.value, ast.Subscript) and norm(n.func.value.value) == f"{p0}.cores"
-             and n.args and isinstance(n.args[0], ast.Constant) and n.args[0].value is True]
-    ok = len(calls) >= 2
+    idxp = f.params()[1] if len(f.params()) > 1 else None
+    forms = set()
+    for lp in ast.walk(f.node):
+        if not (isinstance(lp, ast.For) and isinstance(lp.target, ast.Name)):
+            continue
+        calls = [n for n in ast.walk(lp) if isinstance(n, ast.Call) and isinstance(n.func, ast.Attribute) and n.func.attr == "requires_grad_"
+                 and n.args and isinstance(n.args[0], ast.Constant) and n.args[0].value is True]
+        tv = lp.target.id
+        direct = [c for c in calls if isinstance(c.func.value, ast.Name) and c.func.value.id == tv]                       # for c in tens.cores: c.requires_grad_(True)
+        indexed = [c for c in calls if isinstance(c.func.value, ast.Subscript) and norm(c.func.value.value) == f"{p0}.cores" and norm(c.func.value.slice) == tv]
+        it = norm(lp.iter).replace(" ", "")
+        if direct and it == f"{p0}.cores":
+            forms.add("all")
+        if indexed:
+            if it == f"range(len({p0}.cores))":
+                forms.add("all")
+            elif idxp and it == idxp:
+                # the parameter itself: listed indices - or all of them when it was defaulted to range(len(cores)) under an `is None` test
+                defaulted = any(isinstance(n, ast.If) and idxp in norm(n.test) and "None" in norm(n.test) and
+                                any(isinstance(x, ast.Assign) and norm(x.targets[0]) == idxp and norm(x.value).replace(" ", "") == f"range(len({p0}.cores))" for x in n.body)
+                                for n in ast.walk(f.node))
+                forms.add("listed")
+                if defaulted:
+                    forms.add("all")
+    ok = {"all", "listed"} <= forms
     obs.append(Ob("GRAD-COLLECT", "grad.watch:GRAD-COLLECT", OK if ok else VIOLATED, model.where(f), "requires_grad_(True) on the cores themselves",
                   "watch marks the operand's own cores as leaves (all cores / the listed ones)" if ok else
-                  "watch no longer switches the operand's own cores to requires_grad in both branches"))
+                  f"watch no longer switches the operand's own cores to requires_grad for both call forms (all cores / listed cores); recognised: {sorted(forms)}"))
     return obs
 
 
